@@ -135,8 +135,15 @@ impl<'a> GenRec<'a> {
     }
     pub fn clone_gen(&mut self, g: usize, to: usize) {
         self.slot(to);
-        let c = self.gens[g].as_ref().unwrap().clone();
-        self.gens[to] = Some(c);
+        // Clone::clone() into a new object, or Clone::clone_from() into the (used) generator already
+        // sitting in the destination slot: the result must be the same
+        if to != g && self.gens[to].is_some() {
+            let src = self.gens[g].as_ref().unwrap().clone();
+            self.gens[to].as_mut().unwrap().clone_from(&src);
+        } else {
+            let c = self.gens[g].as_ref().unwrap().clone();
+            self.gens[to] = Some(c);
+        }
         self.fed[to] = self.fed[g].clone();
         self.sh.emit(&format!("{{\"ev\":\"clone\",\"g\":{},\"to\":{}}}", g, to));
     }
@@ -838,6 +845,35 @@ pub fn drive_histories(a: &Args, w: &Words, budget_bytes: usize, maxlen: usize, 
             rec.set_fixed(0, data.len() as u64, i % 3 == 0);
             rec.update(0, (i % 6) as u8, &data);
             rec.fin(0);
+        }
+    }
+    // Clone::clone_from between generators whose contexts are at different fill levels: a destination
+    // that had FULL block hashes receives a source with few pieces, and the reverse; the clone is
+    // finalised at once, after seven zero bytes, and after more data
+    if !with_decl {
+        for lv in [0i32, 1, 3] {
+            for reverse in [false, true] {
+                let mut full = vec![];
+                words_seq(&mut rng, w, &[(lv, 70)], &mut full);
+                let mut few = vec![];
+                words_seq(&mut rng, w, &[(lv, 10)], &mut few);
+                let mut more = vec![];
+                words_seq(&mut rng, w, &[(lv, 3), (-1, 2)], &mut more);
+                rec.begin();
+                rec.new_gen(1);
+                rec.update(1, 0, if reverse { &few } else { &full });
+                rec.fin(1);
+                rec.new_gen(0);
+                rec.update(0, 1, if reverse { &full } else { &few });
+                rec.fin(0);
+                rec.clone_gen(0, 1); // clone_from into the used generator in slot 1
+                rec.fin(1);
+                rec.update(1, 2, &[0u8; 7]);
+                rec.fin(1);
+                rec.update(1, 0, &more);
+                rec.fin(1);
+                rec.fin(0);
+            }
         }
     }
     // one call of more than 2^16 ordinary bytes per form (a 16-bit length or position would wrap)
